@@ -111,6 +111,28 @@ theorem new_eq_iff (M v w : Int) (hM : 2 ≤ M) (hM2 : M < 2 ^ 31) :
   · intro h; injection h
   · intro h; rw [h]
 
+/-- Construction commutes with the ring operations: building two values from arbitrary integers
+    and combining them gives the value built from the integer result (this is literally what the
+    driver evaluates for a `pair` / `un` / `pow` case). -/
+theorem new_hom (M v w : Int) (d : Nat) (hM : 2 ≤ M) (hM2 : M < 2 ^ 31) :
+    (new M v >>= fun x => new M w >>= fun y => add M x y) = new M (v + w) ∧
+    (new M v >>= fun x => new M w >>= fun y => sub M x y) = new M (v - w) ∧
+    (new M v >>= fun x => new M w >>= fun y => mul M x y) = new M (v * w) ∧
+    (new M v >>= fun x => neg M x) = new M (-v) ∧
+    (new M v >>= fun x => pow M x d) = new M (v ^ d) := by
+  have hpos : 0 < M := by omega
+  have rv : R M (v % M) := R_red hpos v
+  have rw' : R M (w % M) := R_red hpos w
+  simp only [new_eq M _ hM hM2, ok_bind]
+  refine ⟨?_, ?_, ?_, ?_, ?_⟩
+  · rw [add_eq M _ _ hM hM2 rv rw', ← Int.add_emod]
+  · rw [sub_eq M _ _ hM hM2 rv rw', ← Int.sub_emod]
+  · rw [mul_eq M _ _ hM hM2 rv rw', ← Int.mul_emod]
+  · rw [neg_eq M _ hM hM2 rv]
+    congr 1
+    have h1 : -(v % M) = -v + M * (v / M) := by have := Int.emod_add_mul_ediv v M; linarith
+    rw [h1, Int.add_mul_emod_self_left]
+  · rw [(pow_spec M _ d hM hM2 rv).1, pow_emod]
 /-- IO: `Readable` reduces the `i64` token with `new`; `Writable`/`Display`/`Debug` print the
     canonical representative, so writing a value and reading the token back is the identity.
     (The token ↔ `i64` step itself belongs to `rlib_io`: C08 / C09.) -/
@@ -143,6 +165,10 @@ example : ∃ z, div 15015 5 2 = .ok z ∧ mul 15015 z 2 = .ok 5 :=
 example : ∃ r, inv 15015 6 = .ok r ∧ R 15015 r ∧ (r * 6) % 15015 = 3 :=
   inv_spec 15015 6 (by decide) (by decide) ⟨by decide, by decide⟩
 example : eq 5 5 = true ↔ (5 : Int) % 7 = 5 % 7 := repr_canonical 7 5 5 ⟨by decide, by decide⟩ ⟨by decide, by decide⟩
+
+example : (new 2147483647 9223372036854775807 >>= fun x => new 2147483647 (-9223372036854775808) >>= fun y => mul 2147483647 x y)
+    = new 2147483647 (9223372036854775807 * -9223372036854775808) :=
+  (new_hom 2147483647 9223372036854775807 (-9223372036854775808) 0 (by decide) (by decide)).2.2.1
 
 /-! ### Counter-examples outside the guard (documentation, not part of the claim)
 
